@@ -87,7 +87,7 @@ pub fn run(ctx: &Ctx) -> i32 {
     let mut trees = families::plain(w1);
     let ntrees_plain = trees.len();
     trees.extend(families::decode_only());
-    let acc = trees.par_iter().enumerate().map(|(ti, m)| {
+    let acc = trees.par_iter().enumerate().with_max_len(1).map(|(ti, m)| {
         let mut acc = Acc::new();
         acc.inc("trees");
         let e = if ti < ntrees_plain { bind::build(m, 0) } else { bind::build_route(m, bind::Route::Decode) };
